@@ -403,8 +403,7 @@ theorem judge_sys (y : Sys) (s : SpecSt) (hr : Rel y s) (op : Op) (hop : op.twoP
               simp only
               rw [hfd] at hold
               split
-              · simp only
-                cases hcv : y.st.cacheView k' t' with
+              · cases hcv : y.st.cacheView k' t' with
                 | some v =>
                   rw [hcv] at hold
                   exact mem_union.mpr (Or.inl (by simpa using hold))
